@@ -18,6 +18,10 @@ CLAIMED = {
   "abstract interpretation of handlers (stack bounds, memory accesses as entry-slot operands) vs memorySize/dynamicGas functions; who-may-write Contract.Gas; dominance of depth/gas/stack guards; input-bounds lint for precompiles; panic triage over the call-graph cone",
   "Structural necessary conditions of totality/resource bounds, exhaustive over ~156 rows, all writers of Contract.Gas, six frame entries, 40 precompile functions, all overflow-flag producers and every explicit panic in the interpreter's cone: no handler under/overflows the validated stack; every memory access lies in a region the row's memorySize accounts for and is charged; gas only decreases except for gas returned by a nested frame; depth guards, charge-before-run and validate-before-execute orderings hold. Termination as such and exact gas values are not decided.",
   "Trusted: go/ssa, VTA call graph; memory is grown only by Run. Recorded defect F11 (AUTH row without memorySize → host panic) is printed as KNOWN-FINDING."),
+ "C04": ("3/C04",
+  "who-may-write tables over struct fields (stores, map updates, deletes, sync.Map mutators); must-pass-through of journal appends before raw setters; entry/undo sibling agreement; contradiction rule on length-observable maps; loop-shape check of RevertToSnapshot",
+  "Journal completeness decided structurally for every write site of every journaled field of storage/account (~60 (field, function) pairs), every raw-setter call site, every journal entry type and its undo, and the revert loop: a mutation outside the reviewed writer table, a raw mutation not preceded by its journal entry on some path, an undo that touches other state than its entry, or a changed revert loop is reported. Value equality of queries after a revert is not decided.",
+  "Trusted: the journaled-field list and writer/pair tables in rules/c04.go (each row with its class); go/ssa. Recorded defect F5 (undo cannot shrink cachedStorage/dirtyStorage while empty() reads their length) is printed as KNOWN-FINDING."),
 }
 
 NOT_YET = {}
